@@ -218,6 +218,14 @@ static void stage_tj(unsigned char *src, unsigned long size, int n, xf_t *xf, un
                    ((xf[i].eopt & 4) ? TJXOPT_OPTIMIZE : 0) | ((xf[i].eopt & 8) ? TJXOPT_COPYNONE : 0);
     t[i].r.x = xf[i].cx; t[i].r.y = xf[i].cy; t[i].r.w = xf[i].cw; t[i].r.h = xf[i].ch;
   }
+  { /* what tj3TransformBufSize promises for each request (separate instance, header only) */
+    tjhandle hb = tj3Init(TJINIT_TRANSFORM);
+    printf("bs");
+    if (tj3DecompressHeader(hb, src, size) < 0) for (i = 0; i < n; i++) printf(" -1");
+    else for (i = 0; i < n; i++) printf(" %lu", (unsigned long)tj3TransformBufSize(hb, &t[i]));
+    printf(" ; ");
+    tj3Destroy(hb);
+  }
   rc = tj3Transform(h, src, size, n, bufs, sizes, t);
   if (rc != 0) {
     const char *m = tj3GetErrorStr(h);
@@ -307,6 +315,22 @@ static void stage_jt(unsigned char *src, unsigned long size, xf_t *x, int inject
     jtransform_execute_transformation(&d, &c, sarr, &info);
     printf("ok | ");
     dump_arrays((j_common_ptr)&d, darr, c.num_components, c.comp_info, c.quant_tbl_ptrs, c.image_width, c.image_height, (int)c.jpeg_color_space, 0);
+    /* whole workspace arrays: everything the loop nests write, padding strips included */
+    printf(" | pad");
+    if (info.workspace_coef_arrays != NULL) {
+      int ci, k; JDIMENSION xx, yy;
+      int tr = (x->op == 3 || x->op == 4 || x->op == 5 || x->op == 7);
+      for (ci = 0; ci < c.num_components; ci++) {
+        jpeg_component_info *cp = c.comp_info + ci;
+        JDIMENSION wit = tr ? rup(cp->width_in_blocks, cp->h_samp_factor) : cp->width_in_blocks;
+        JDIMENSION hit = rup(cp->height_in_blocks, cp->v_samp_factor);
+        printf(" %u %u", wit, hit);
+        for (yy = 0; yy < hit; yy++) {
+          JBLOCKARRAY ba = (*d.mem->access_virt_barray) ((j_common_ptr)&d, darr[ci], yy, 1, FALSE);
+          for (xx = 0; xx < wit; xx++) for (k = 0; k < 64; k++) printf(" %d", ba[0][xx][k]);
+        }
+      }
+    }
   }
   jpeg_destroy_compress(&c); jpeg_destroy_decompress(&d); free(out);
 }
